@@ -11,7 +11,7 @@ package writer
 
 //@ func HandleBulkBody
 //@   props C15
-//@   requires ghost(0, "bulkFailed") == 0 && ghost(0, "bulkItems") == 0
+//@   ghostinit ghost(0, "bulkFailed") == 0 && ghost(0, "bulkItems") == 0
 //@   loop 1:
 //@     invariant overallError == (ghost(0, "bulkFailed") == 1)
 //@     invariant [one-item-per-action] ghost(0, "bulkItems") == inCount
